@@ -57,8 +57,10 @@ func (k Keeper) EndBlocker(ctx sdk.Context) {
 	snapPeriod := k.GetSnapPeriod(ctx)
 	allVotes := k.GetAllValidatorVotes(ctx)
 
+	// remove votes older than snap period (the votes inside the period are the signing
+	// record AllocateTokens reads at the next BeginBlocker)
 	for _, vote := range allVotes {
-		if vote.Height+snapPeriod > ctx.BlockHeight() {
+		if vote.Height+snapPeriod <= ctx.BlockHeight() {
 			consAddr, err := sdk.ConsAddressFromBech32(vote.ConsAddr)
 			if err != nil {
 				continue
